@@ -16,6 +16,7 @@ CLASSES = {
     'DQ': ['"'], 'SQ': ["'"], 'HASH': ['#'], 'DOT': ['.'], 'COLON': [':'], 'LBR': ['['], 'RBR': [']'], 'LP': ['('], 'RP': [')'],
     'COMMA': [','], 'COMB': ['>', '+', '~'], 'PIPE': ['|'], 'STAR': ['*'], 'EQ': ['='], 'OPX': ['^', '$', '!'], 'SLASH': ['/'],
     'BSL': ['\\'], 'DASH': ['-'], 'US': ['_'], 'DIGIT': ['7', '0'], 'HEXL': ['a', 'F'], 'N': ['n', 'N'], 'LETTER': ['p', 'Z'],
+    'UDIGIT': ['\u0663', '\uff12', '\u0967'],          # decimal digits outside ASCII (\\d matches them, [0-9] does not)
     'AMP': ['&'], 'AT': ['@'], 'PCT': ['%', '%s', '%d'], 'ESCPCT': ['\\%', '\\25 ', '\\{', '\\7b '], 'DEL': ['\x7f'], 'C1': ['\x80', '\x9f'], 'BMP': ['\xa0', '中'], 'SURR': ['\ud800'],
     'ASTRAL': ['\U0001f600', '\U0010ffff'],
     'ESCBIG': ['\\110000', '\\ffffff'], 'ESCZERO': ['\\0', '\\000000 '], 'ESCSURR': ['\\d800', '\\dfff '], 'ESCMAX': ['\\10ffff '],
